@@ -55,7 +55,7 @@ func (s *Server) Compile(tc Toolchain, dir string, o CompileOpts) *CompileResult
 	}
 	capture := filepath.Join(dir, ".ferretd.out")
 	req := map[string]any{"dir": dir, "entry": o.Entry, "target": o.Target, "typeonly": o.TypeOnly, "keepgen": o.KeepGen,
-		"out": o.Out, "capture": capture, "gomaxprocs": o.GoMaxProcs, "sched": o.Sched}
+		"out": o.Out, "capture": capture, "gomaxprocs": o.GoMaxProcs, "sched": o.Sched, "debug": o.Debug}
 	b, _ := json.Marshal(req)
 	to := o.Timeout
 	if to == 0 {
